@@ -23,40 +23,77 @@ from snaxc.dialects import accfg
 State = dict[str, SSAValue]
 
 
-def infer_state_of(state_var: SSAValue) -> State:
+Memo = dict[tuple[SSAValue, frozenset[scf.ForOp]], State]
+
+
+def infer_state_of(
+    state_var: SSAValue, _open_loops: frozenset[scf.ForOp] = frozenset(), _memo: Memo | None = None
+) -> State:
     """
     Entrance function of the inference pass.
 
     This walks up the def-use chain to compute all values
     that are guaranteed to be set in this state.
+
+    `_open_loops` and `_memo` are internal: the loops whose yielded state is currently being
+    inferred (their loop-carried state is assumed to be the initial state), and the results
+    computed so far during this walk.
     """
+    if _memo is None:
+        _memo = {}
+    key = (state_var, _open_loops)
+    if key not in _memo:
+        _memo[key] = _infer_state_of(state_var, _open_loops, _memo)
+    return dict(_memo[key])
+
+
+def _infer_state_of(state_var: SSAValue, _open_loops: frozenset[scf.ForOp], _memo: Memo) -> State:
     owner = state_var.owner
     match owner:
         case accfg.SetupOp(in_state=None) as setup_op:
             return {name: val for name, val in setup_op.iter_params()}
         case accfg.SetupOp(in_state=st) as setup_op if st is not None:
-            in_state = infer_state_of(st)
+            in_state = infer_state_of(st, _open_loops, _memo)
             in_state.update(dict(setup_op.iter_params()))
             return in_state
         case scf.IfOp() as if_op:
-            return state_intersection(*infer_states_for_if(if_op, state_var))
+            return state_intersection(*infer_states_for_if(if_op, state_var, _open_loops, _memo))
         case scf.ForOp() as for_op:
-            yield_op = for_op.body.block.last_op
-            assert isinstance(yield_op, scf.YieldOp)
             assert state_var in for_op.results  # this must be true because state_var.owner == for_op
-            return infer_state_of(yield_op.operands[for_op.results.index(state_var)])
+            return infer_state_for_loop(for_op, for_op.results.index(state_var), _open_loops, _memo)
         case Block() as block:
             match block.parent_op():
                 case scf.ForOp() as for_op:
                     assert isinstance(state_var, BlockArgument)  # must be a block argument for owner to be a block!
-                    return infer_state_of(for_op.iter_args[state_var.index - 1])
+                    if for_op in _open_loops:
+                        return infer_state_of(for_op.iter_args[state_var.index - 1], _open_loops, _memo)
+                    return infer_state_for_loop(for_op, state_var.index - 1, _open_loops, _memo)
                 case _:
                     return {}
         case _:
             raise ValueError(f"Cannot infer state for op {owner.name}")
 
 
-def infer_states_for_if(op: scf.IfOp, state: SSAValue) -> tuple[State, State]:
+def infer_state_for_loop(
+    for_op: scf.ForOp, idx: int, _open_loops: frozenset[scf.ForOp] = frozenset(), _memo: Memo | None = None
+) -> State:
+    """
+    Compute the state of the `idx`-th loop-carried state of a for loop, valid both at
+    the start of every iteration and after the loop (which may run zero times).
+
+    Only values that are set before the loop *and* still set to the same value at
+    the end of the loop body are guaranteed in both places.
+    """
+    yield_op = for_op.body.block.last_op
+    assert isinstance(yield_op, scf.YieldOp)
+    init_state = infer_state_of(for_op.iter_args[idx], _open_loops, _memo)
+    yield_state = infer_state_of(yield_op.operands[idx], _open_loops | {for_op}, _memo)
+    return state_intersection(init_state, yield_state)
+
+
+def infer_states_for_if(
+    op: scf.IfOp, state: SSAValue, _open_loops: frozenset[scf.ForOp] = frozenset(), _memo: Memo | None = None
+) -> tuple[State, State]:
     """
     Walk both sides of the if/else block and return the computed
     states for the given state SSA value (`state`)
@@ -71,7 +108,7 @@ def infer_states_for_if(op: scf.IfOp, state: SSAValue) -> tuple[State, State]:
         assert isinstance(yield_op, scf.YieldOp)
         # we know the yield op has the same number of operands as the
         # scf.if has results, so [idx] must be defined
-        states.append(infer_state_of(yield_op.operands[idx]))
+        states.append(infer_state_of(yield_op.operands[idx], _open_loops, _memo))
     assert len(states) == 2
     return states[0], states[1]
 
